@@ -223,6 +223,41 @@ def dur_is_zero(eng, st, fr, args, fn, site):
     return T('le', deref(eng, st, args[0]), C(0, 'i64'))
 
 
+def _never_nan(x):
+    """a float that cannot be NaN: an integer converted to float, or such a value multiplied / divided by a finite non-zero
+    constant (integers convert to finite floats; finite * c and finite / c, c != 0 finite, are finite or +-inf)"""
+    if x[0] == 't' and x[1] == 'cast' and len(x[2]) >= 2 and x[2][1] == 'IntToFloat':
+        return True
+    if x[0] == 'c':
+        v = x[1]
+        if isinstance(v, tuple) and v and v[0] == 'f':
+            try:
+                v = float(v[1])
+            except ValueError:
+                return False
+        return isinstance(v, (int, float)) and v == v and v not in (float('inf'), float('-inf'))
+    if x[0] == 't' and x[1] == 'conv' and x[2] and x[2][0][0] in ('t', 'sym'):
+        return _never_nan(x[2][0])
+    if x[0] == 't' and x[1] in ('Div', 'Mul') and len(x[2]) == 2:
+        a, b = x[2]
+        cb = b[1] if b[0] == 'c' and isinstance(b[1], (int, float)) else None
+        if b[0] == 'c' and isinstance(b[1], tuple) and b[1][0] == 'f':
+            try:
+                cb = float(b[1][1])
+            except ValueError:
+                cb = None
+        if cb is not None and cb == cb and cb not in (0, float('inf'), float('-inf')):
+            return _never_nan(a)
+    return False
+
+
+def f64_is_nan(eng, st, fr, args, fn, site):
+    x = args[0]
+    if _never_nan(x):
+        return C(0, 'bool')
+    return T('is_nan', x)
+
+
 def nonzero_new(eng, st, fr, args, fn, site):
     """NonZero::<T>::new(x): Some(x) unless x == 0 (the wrapper is transparent: NonZero::get is the identity)"""
     x = args[0]
@@ -1169,6 +1204,7 @@ SUMMARIES = {
     'std::num::<impl u32>::trailing_zeros': trailing_zeros('u32'),
     'std::num::<impl u64>::trailing_zeros': trailing_zeros('u64'),
     'std::num::<impl usize>::trailing_zeros': trailing_zeros('usize'),
+    'std::f64::<impl f64>::is_nan': f64_is_nan,
     'std::f64::<impl f64>::to_bits': un_val('f64_to_bits'),
     'std::f64::<impl f64>::from_bits': f64_from_bits,
     'std::num::<impl i64>::checked_add': checked('checked_add'),
